@@ -65,6 +65,10 @@ def r_expr(e):
     return "Bits%d(%s)" % (e[1], r_expr(e[2]))
   if k == "mkstruct":
     return "%s_%s(%s)" % (e[1], _UID[0], ", ".join(r_expr(x) for x in e[2]))
+  if k == "fcall":
+    return "%s(%s)" % (e[1], ", ".join(r_expr(x) for x in e[2]))
+  if k == "param":
+    return e[1]
   raise ValueError(e)
 
 
@@ -77,7 +81,8 @@ def r_stmts(stmts, op, ind, out):
       # an optional 4th element overrides the assignment operator (C09 defect injection)
       out.append("%s%s %s %s" % (" " * ind, r_path(st[1]), st[3] if len(st) > 3 else op, r_expr(st[2])))
     elif k == "tmp":
-      out.append("%s%s = %s" % (" " * ind, st[1], r_expr(st[2])))
+      # optional 4th element: more names of a chained assignment (a = b = expr)
+      out.append("%s%s = %s" % (" " * ind, " = ".join([st[1]] + list(st[3] if len(st) > 3 else [])), r_expr(st[2])))
     elif k == "if":
       out.append("%sif %s:" % (" " * ind, r_expr(st[1])))
       r_stmts(st[2], op, ind + 2, out)
@@ -127,7 +132,13 @@ def source(spec):
         body.append("s.%s = %s(%s)" % (sg["name"], ctor, t))
     for sb in cd["subs"]:
       if sb["dims"] and sb.get("cls_list"):
-        body.append("s.%s = [%s]" % (sb["name"], ", ".join("%s_%s()" % (cn, uid) for cn in sb["cls_list"])))
+        # cls_list is flat (row-major) for lists of lists
+        def lit(flat, dims):
+          if len(dims) == 1:
+            return "[%s]" % ", ".join("%s_%s()" % (cn, uid) for cn in flat)
+          step = len(flat) // dims[0]
+          return "[%s]" % ", ".join(lit(flat[i * step:(i + 1) * step], dims[1:]) for i in range(dims[0]))
+        body.append("s.%s = %s" % (sb["name"], lit(list(sb["cls_list"]), sb["dims"])))
       elif sb["dims"]:
         inner = "%s_%s()" % (sb["cls"], uid)
         for d in reversed(sb["dims"]):
@@ -140,6 +151,10 @@ def source(spec):
         body.append("%s = %d" % (fr["name"], fr["v"]))
       else:
         body.append("%s = Bits%d(%d)" % (fr["name"], fr["w"], fr["v"]))
+    for fn in cd.get("funcs", []):
+      body.append("@s.func")
+      body.append("def %s(%s):" % (fn["name"], ", ".join(p[0] for p in fn["params"])))
+      body.append("  return %s" % r_expr(fn["ret"]))
     for it in [x for x in cd["items"] if x["k"] != "constraint"] + [x for x in cd["items"] if x["k"] == "constraint"]:
       k = it["k"]
       if k == "connect":
